@@ -360,6 +360,10 @@ def refute_exprs(pairs, conds=()):
     except Exception:
         return None
     doms = [_domain(consts, text) for text, _v in terms]
+    spoken = " ; ".join(list(atom_texts) + [ast.unparse(x) for a, b in units for x in (a, b)])
+    for i_, (text, _v) in enumerate(terms):
+        if ("%s is None" % text in spoken or "%s is not None" % text in spoken) and ("len(%s)" % text) not in table:
+            doms[i_] = [None] + [x for x in doms[i_] if x]      # an object or None (see refute_conditions)
     # an unknown used as a bit mask (or masked) is taken from 0, the powers of two and the constants present: whether it has one
     # bit or several is not known here, and `x & m != 0` / `x & m == m` differ only for a mask of several bits
     cset = {c for c in consts if isinstance(c, int)}
@@ -500,6 +504,11 @@ def refute_conditions(f_ref, f_code):
         consts += _consts(e)
     terms = sorted(table.items(), key=lambda kv: kv[1])
     doms = [_domain(consts, text) for text, _v in terms]
+    # an operand that is compared with None is an object or None: a witness does not rest on a falsy object (0, b'') unless its
+    # length is spoken about as well
+    for i_, (text, _v) in enumerate(terms):
+        if any(t in ("%s is None" % text, "None is %s" % text, "%s == None" % text, "None == %s" % text) for t in (ta | tb)) and ("len(%s)" % text) not in table:
+            doms[i_] = [None] + [x for x in doms[i_] if x]
     # a term tested bit by bit takes the values that set exactly those bits
     for t in code:
         for m in re.finditer(r"bit\((.+?), (\d+)\)", t):
@@ -540,3 +549,28 @@ def refute_conditions(f_ref, f_code):
         except Exception:
             return None
     return False if seen else None
+
+
+def same_operands(atoms_a, atoms_b):
+    """the two groups of atoms speak about the same operands (a thing and its length count as one)"""
+    import copy
+
+    def operands(atoms):
+        table = {}
+        ab = _Abstract(table)
+        for t in atoms:
+            e = parse_expr(t)
+            if e is None:
+                return None
+            try:
+                ab.visit(copy.deepcopy(e))
+            except Exception:
+                return None
+        out = set()
+        for k in table:
+            while k.startswith("len(") and k.endswith(")"):
+                k = k[4:-1]
+            out.add(k)
+        return out
+    a, b = operands(atoms_a), operands(atoms_b)
+    return a is not None and b is not None and bool(a) and a == b
